@@ -233,6 +233,16 @@ def main(quick=False):
           [(a, k, 5) for a in A[::7] for k in B if len(k) == len(a)])
     audit("slice assignment / in-place |= on a prefix", lambda m, a, k: (a.__setitem__(slice(None, k), 9), a)[1],
           lambda m, a, k: (a.__setitem__(slice(None, k), 9), a)[1], [(a, k) for a in A[::7] for k in range(0, 5)])
+    def _at(nm):
+        def f(m, t, i, v):
+            getattr(m, nm).at(t, i, v)
+            return t
+        return f
+    audit("add.at (unbuffered, repeated indices)", _at("add"), _at("add"),
+          [(np.array(t0), np.array(i), np.array(v)) for t0 in ([0, 0, 0], [5, -1, 2]) for i in itertools.product(range(-3, 3), repeat=3) for v in ([1, 2, 4],)][::2]
+          + [(np.array([1, 1]), np.array([0, 2]), np.array([1, 1])), (np.array([1, 1]), np.array([], dtype=int), np.array([], dtype=int))])
+    audit("maximum.at", _at("maximum"), _at("maximum"),
+          [(np.array([0, 0, 0]), np.array(i), np.array([3, -2, 7])) for i in itertools.product(range(0, 3), repeat=3)][::2])
     audit("add.reduceat", lambda m, a, i: m.add.reduceat(a, i), lambda m, a, i: np.add.reduceat(a, i),
           [(a, i) for a in A[::9] if len(a) for i in [np.array(t) for k in (1, 2, 3) for t in itertools.product(range(len(a) + 1), repeat=k)]][::2],
           determinate=False)
